@@ -40,21 +40,23 @@ func pick[T any](r *Rng, xs []T) T   { return xs[r.Intn(len(xs))] }
 
 // Profile shapes the worlds and workloads of one property's check.
 type Profile struct {
-	Prop       string
-	MinClients int
-	MaxClients int
-	SDK        string // "" mixed, v1, v2
-	MaxTables  int
-	MinIdx     int
-	MaxIdx     int
-	RangeProb  float64
-	KeyStyle   string // plain | adversarial | numeric
-	MinSteps   int
-	MaxSteps   int
-	Retain     bool
-	Weights    map[string]float64
-	FaultFree  float64  // share of runs with every fault kind off
-	Faults     []string // kinds that count as faults (switched off in fault-free runs)
+	Prop         string
+	MinClients   int
+	MaxClients   int
+	SDK          string // "" mixed, v1, v2
+	MaxTables    int
+	MinIdx       int
+	MaxIdx       int
+	RangeProb    float64
+	KeyStyle     string   // plain | adversarial | numeric
+	AltKeyStyles []string // styles drawn instead of KeyStyle with probability AltKeyProb
+	AltKeyProb   float64
+	MinSteps     int
+	MaxSteps     int
+	Retain       bool
+	Weights      map[string]float64
+	FaultFree    float64  // share of runs with every fault kind off
+	Faults       []string // kinds that count as faults (switched off in fault-free runs)
 }
 
 // RunCfg is the swarm configuration drawn for one run.
@@ -67,11 +69,11 @@ type RunCfg struct {
 }
 
 var strPool = []string{"a", "b", "ab", "abc", "x", "xy", "a.b", "B", "zz"}
-var numPool = []string{"0", "1", "2", "3", "5", "7", "10", "-1", "100"}
+var numPool = []string{"0", "1", "2", "3", "5", "7", "10", "-1", "100", "16777217", "1700000001", "123456789012"}
 
 type attrT struct{ name, typ string }
 
-var dataAttrs = []attrT{{"a", "S"}, {"b", "S"}, {"n", "N"}, {"c", "N"}, {"f", "BOOL"}, {"u", "NULL"}, {"ss", "SS"}, {"ns", "NS"}, {"m", "M"}, {"l", "L"}, {"bin", "B"}, {"bs", "BS"}}
+var dataAttrs = []attrT{{"a", "S"}, {"A", "S"}, {"b", "S"}, {"n", "N"}, {"c", "N"}, {"f", "BOOL"}, {"u", "NULL"}, {"ss", "SS"}, {"ns", "NS"}, {"m", "M"}, {"l", "L"}, {"bin", "B"}, {"bs", "BS"}}
 
 // Gen turns PRNG draws into worlds and commands.
 type Gen struct {
@@ -121,7 +123,7 @@ func keyVals(r *Rng, style, typ string, n int, hash bool) []AV {
 	var pool []AV
 	switch {
 	case typ == "N":
-		for _, s := range []string{"1", "2", "3", "10", "20", "5"} {
+		for _, s := range []string{"11", "12", "13", "20", "35", "50"} /* equal width: text order = numeric order (number keys are ordered by text: listed finding of C02) */ {
 			pool = append(pool, N(s))
 		}
 	case typ == "B":
@@ -163,6 +165,10 @@ func keyVals(r *Rng, style, typ string, n int, hash bool) []AV {
 func (g *Gen) makeWorld() {
 	r, p := g.R, g.P
 	w := &World{}
+	style := p.KeyStyle
+	if len(p.AltKeyStyles) > 0 && r.Chance(p.AltKeyProb) {
+		style = pick(r, p.AltKeyStyles)
+	}
 	nc := r.Range(p.MinClients, p.MaxClients)
 	for i := 0; i < nc; i++ {
 		sdk := p.SDK
@@ -175,15 +181,18 @@ func (g *Gen) makeWorld() {
 	for i := 0; i < nt; i++ {
 		name := fmt.Sprintf("tbl%d", i)
 		hashT, rangeT := "S", "S"
-		if p.KeyStyle == "numeric" {
+		if style == "numeric" {
 			hashT = pick(r, []string{"S", "N"})
 			rangeT = pick(r, []string{"N", "N", "B", "S"})
+			if hashT == "S" && rangeT == "S" {
+				hashT = "N"
+			}
 		}
 		u := TableUni{Name: name, IdxVals: map[string][]AV{}}
-		u.HashVals = keyVals(r, p.KeyStyle, hashT, r.Range(2, 4), true)
-		u.RangeVals = keyVals(r, p.KeyStyle, rangeT, r.Range(2, 4), false)
+		u.HashVals = keyVals(r, style, hashT, r.Range(2, 4), true)
+		u.RangeVals = keyVals(r, style, rangeT, r.Range(2, 4), false)
 		g2T := pick(r, []string{"S", "S", "N"})
-		if (p.KeyStyle != "numeric" && p.Prop != "C02") || (KnownTriggers["number-sort-key-order"] && r.Chance(0.8)) {
+		if (style != "numeric" && p.Prop != "C02") || (KnownTriggers["number-sort-key-order"] && r.Chance(0.8)) {
 			g2T = "S"
 		}
 		u.IdxVals["g1"] = []AV{S("p"), S("q"), S("pq")}[:r.Range(2, 3)]
@@ -211,6 +220,8 @@ func (g *Gen) makeWorld() {
 			}
 			if def.Range != nil {
 				cands = append(cands, IndexDef{Name: "lsi1", Kind: "lsi", Hash: KeyDef{"h", hashT}, Range: &KeyDef{"l1", "S"}})
+				// inverted index: keyed by primary-key attributes only
+				cands = append(cands, IndexDef{Name: "gsi3", Kind: "gsi", Hash: KeyDef{"r", rangeT}, Range: &KeyDef{"h", hashT}})
 			}
 			for i := len(cands) - 1; i > 0; i-- {
 				j := r.Intn(i + 1)
@@ -328,7 +339,7 @@ func (g *Gen) value(typ string) AV {
 // tableOf picks a table name; existing in the model with probability high.
 func (g *Gen) tableOf(mc *MClient) (string, *MTable) {
 	names := sortedKeys(mc.Tables)
-	if len(names) == 0 || g.R.Chance(0.03) {
+	if len(names) == 0 || g.R.Chance(0.05) {
 		u := pick(g.R, g.W.Tables)
 		return u.Name, mc.Tables[u.Name]
 	}
@@ -399,6 +410,15 @@ func (g *Gen) item(name string, def TableDef, key Item) Item {
 			it[k.Name] = g.idxAttrVal(name, k.Name, k.Type)
 		}
 	}
+	// an attribute that a later UpdateTable may declare as an index key, with
+	// another type: index creation over such items must skip them
+	indexed := map[string]bool{}
+	for _, k := range indexAttrs(def) {
+		indexed[k.Name] = true
+	}
+	if !indexed["g1"] && g.R.Chance(0.06) {
+		it["g1"] = N("5")
+	}
 	n := g.R.Intn(4)
 	for i := 0; i < n; i++ {
 		a := pick(g.R, dataAttrs)
@@ -431,7 +451,7 @@ func (g *Gen) cond(name string, def TableDef, depth int) *Expr {
 	}
 	// leaf
 	type cand struct{ name, typ string }
-	cands := []cand{{"a", "S"}, {"b", "S"}, {"n", "N"}, {"c", "N"}, {"f", "BOOL"}, {"ss", "SS"}, {"m", "M"}, {"l", "L"}}
+	cands := []cand{{"a", "S"}, {"A", "S"}, {"b", "S"}, {"n", "N"}, {"c", "N"}, {"f", "BOOL"}, {"ss", "SS"}, {"m", "M"}, {"l", "L"}}
 	for _, k := range def.KeyAttrs() {
 		cands = append(cands, cand{k.Name, k.Type})
 	}
@@ -782,7 +802,22 @@ func (g *Gen) try(m *Model, eng *Engine) *Cmd {
 		if mt == nil {
 			return nil
 		}
-		switch r.Intn(3) {
+		switch r.Intn(4) {
+		case 3:
+			// more than 25 requests in total, at most 25 per table
+			names := sortedKeys(mc.Tables)
+			if len(names) < 2 {
+				return nil
+			}
+			for _, tn := range names[:2] {
+				tdef := mc.Tables[tn].Def
+				keys := g.W.uni(tn).KeysOf(tdef)
+				for i := 0; i < 13; i++ {
+					it := g.item(tn, tdef, keys[i%len(keys)].Clone())
+					it["a"] = S(fmt.Sprintf("over%d", i))
+					cmd.Batch = append(cmd.Batch, BatchReq{T: tn, Put: it})
+				}
+			}
 		case 0:
 			u := g.W.uni(name)
 			keys := u.KeysOf(def)
@@ -956,6 +991,108 @@ func (g *Gen) try(m *Model, eng *Engine) *Cmd {
 				}
 			}
 		}
+	case "keyextra":
+		// a Key map carrying an attribute that is not part of the key schema
+		if mt == nil {
+			return nil
+		}
+		cmd.Actor = "injector"
+		cmd.Key = g.keyFor(name, def, mt)
+		extra := pick(r, []attrT{{"zz", "S"}, {"a", "S"}, {"n", "N"}})
+		cmd.KeyExtra = Item{extra.name: g.value(extra.typ)}
+		if ia := indexAttrs(def); len(ia) > 0 && r.Chance(0.4) {
+			kd := pick(r, ia)
+			cmd.KeyExtra = Item{kd.Name: g.idxAttrVal(name, kd.Name, kd.Type)}
+		}
+		switch r.Intn(4) {
+		case 0:
+			cmd.Op = "Get"
+		case 1:
+			cmd.Op = "Delete"
+		default:
+			cmd.Op = "Update"
+			var cur Item
+			if it := mt.Items[KeyID(def, cmd.Key)]; it != nil {
+				cur = it
+			} else {
+				cur = cmd.Key
+			}
+			cmd.Upd = g.update(name, def, cur)
+			for _, a := range cmd.Upd {
+				if _, clash := cmd.KeyExtra[a.Path.Attr]; clash {
+					return nil
+				}
+			}
+		}
+	case "batchpartial":
+		// a batch whose n-th request is invalid: nothing of it may be applied (C08)
+		if mt == nil {
+			return nil
+		}
+		cmd.Op, cmd.Actor, cmd.T = "BatchWrite", "injector", ""
+		seen := map[string]bool{}
+		n := r.Range(1, 4)
+		for i := 0; i < n; i++ {
+			tn, tmt := g.tableOf(mc)
+			if tmt == nil {
+				continue
+			}
+			k := g.keyFor(tn, tmt.Def, tmt)
+			id := tn + "|" + KeyID(tmt.Def, k)
+			if seen[id] {
+				continue
+			}
+			seen[id] = true
+			if r.Chance(0.7) {
+				cmd.Batch = append(cmd.Batch, BatchReq{T: tn, Put: g.item(tn, tmt.Def, k)})
+			} else {
+				cmd.Batch = append(cmd.Batch, BatchReq{T: tn, Del: k})
+			}
+		}
+		if len(cmd.Batch) == 0 {
+			return nil
+		}
+		var bad BatchReq
+		k := g.keyFor(name, def, mt)
+		for seen[name+"|"+KeyID(def, k)] {
+			return nil
+		}
+		switch r.Intn(3) {
+		case 0: // ill-typed primary key attribute
+			it := g.item(name, def, k)
+			kd := pick(r, def.KeyAttrs())
+			if kd.Type == "S" {
+				it[kd.Name] = N("7")
+			} else {
+				it[kd.Name] = S("seven")
+			}
+			bad = BatchReq{T: name, Put: it}
+		case 1: // ill-typed (complete) index key
+			ia := indexAttrs(def)
+			if len(ia) == 0 {
+				return nil
+			}
+			it := g.item(name, def, k)
+			for _, kd := range ia {
+				it[kd.Name] = g.idxAttrVal(name, kd.Name, kd.Type)
+			}
+			kd := pick(r, ia)
+			if kd.Type == "N" {
+				it[kd.Name] = S("five")
+			} else {
+				it[kd.Name] = N("5")
+			}
+			bad = BatchReq{T: name, Put: it}
+		default: // delete with a key attribute missing
+			if def.Range == nil {
+				return nil
+			}
+			dk := k.Clone()
+			delete(dk, def.Range.Name)
+			bad = BatchReq{T: name, Del: dk}
+		}
+		pos := r.Intn(len(cmd.Batch) + 1)
+		cmd.Batch = append(cmd.Batch[:pos:pos], append([]BatchReq{bad}, cmd.Batch[pos:]...)...)
 	case "keyupdate":
 		if mt == nil || g.avoid["update-names-key-attribute"] {
 			return nil
@@ -1029,12 +1166,12 @@ func (g *Gen) shape(cmd *Cmd, name string, def TableDef, query bool) {
 		ix := pick(r, def.Indexes)
 		cmd.Index = ix.Name
 		hash, rng = ix.Hash, ix.Range
-		hvals = u.IdxVals[hash.Name]
-		if hash.Name == def.Hash.Name {
-			hvals = u.HashVals
-		}
+		hvals = idxPartVals(u, def, ix)
 		if rng != nil {
 			rvals = u.IdxVals[rng.Name]
+			if rng.Name == def.Hash.Name {
+				rvals = u.HashVals
+			}
 		}
 	}
 	if query && len(hvals) > 0 {
